@@ -441,6 +441,16 @@ PROPS["C07"] = {
 
 
 # units that need the loop-step world but belong to properties defined earlier
+def _variant_units():
+    # build variant gc_opt (compacting matrix registry) for the lifecycle/descriptor harnesses: thorough tier; the matrix
+    # columns are scaled to 2 (overlay rewrite) so that the pre-states stay small
+    gc = dict(_LOOP_COMMON, name="loop-lifecycle-gc_opt", tags="gc_opt", tier="thorough",
+              files=["harness/gnet/vloop_world.go", "harness/gnet/c14_pick.go", "harness/gnet/c04_lifecycle.go"],
+              rewrites=dict(_LOOP_REWRITES, **{"internal/gfd/gfd.go": _scale_columns(2)}), cfg={"vcfg": {"nodes": 1}})
+    PROPS["C04"]["units"].append(gc)
+    PROPS["C07"]["units"].append(dict(gc, name="loop-fd-gc_opt", files=gc["files"] + ["harness/gnet/c07_fd.go"]))
+
+
 def _patch_units():
     zone_unit = dict(_LOOP_COMMON, name="loop-zone", files=["harness/gnet/vloop_world.go", "harness/gnet/c12_zone.go"], cfg={"vcfg": {"nodes": 1}})
     us = PROPS["C12"]["units"]
@@ -450,3 +460,4 @@ def _patch_units():
 
 
 _patch_units()
+_variant_units()
